@@ -5,6 +5,7 @@
 -/
 import TrompModel.Model.Conc
 import TrompModel.Gen.LockTable
+import TrompModel.Gen.LockScopes
 
 namespace Tromp.C12
 open Tromp.Conc
@@ -152,6 +153,60 @@ theorem legal_execution_is_serial {σ : Type} : ∀ (n : Nat) (tr : List (Nat ×
 /-- **C12, the observed lock discipline** (table regenerated on every run from the hooked build):
     every instrumented access to shared state was made while the accessing thread held the lock. -/
 theorem observed_accesses_all_held : (Tromp.Gen.lockTable.filter (fun s => s.2.2 != 0)) = [] := by decide
+
+
+/-! ### the lexical lock coverage of the current source (Gen/LockScopes.lean, regenerated by tools/lockscope.py)
+
+For every function of mock.hpp / sequence.hpp / lifetime.hpp that takes the global lock, every statement, declaration with
+initialiser, loop / branch condition and return expression is listed with whether it stands lexically inside the scope
+of the lock variable.  Statically, for every path through these functions: -/
+
+/-- statements outside a lock scope that touch nothing shared: the declaration of the lock itself, and the argument
+    check of RT_TIMES (its two operands are the caller's values) with its `throw`. -/
+def localStmts : List String :=
+  ["auto lock = get_lock()", "if (bounds.high < bounds.low)",
+   "throw std::logic_error {\"In RT_TIMES the first value must not exceed the second\"}"]
+
+/-- statements in front of a function's own lock that run under the **caller's** lock: `run_actions` is called from
+    `mock_func` only, inside `mock_func`'s lock scope (`run_actions_called_under_lock`); the mutex is recursive. -/
+def underCallersLock : List (String × String) :=
+  [("run_actions", "if (sequences->is_forbidden())"), ("run_actions", "reported = true"),
+   ("run_actions", "report_forbidden_call(name, loc, params_string(params))")]
+
+/-- **C12, lexical lock coverage.**  In every function that takes the lock, everything that is not on the two short
+    lists above stands inside the lock's scope — the test that decides whether to report, the walk over a list, the
+    unlinking, the hand-over of sequence handles. -/
+theorem lexical_lock_coverage :
+    Tromp.Gen.lockScopes.all (fun fn => fn.2.2.all (fun st =>
+      st.2 || localStmts.contains st.1 || underCallersLock.contains (fn.1, st.1))) = true := by decide
+
+/-- the functions that take the lock — none has lost its lock (it would drop out of the table), none was added unseen. -/
+theorem lock_takers :
+    Tromp.Gen.lockScopes.map (·.1) =
+      ["decommission", "action", "action", "~call_matcher", "is_satisfied", "is_saturated", "run_actions", "make_expectation",
+       "mock_func", "sequence_matcher", "sequence_type::is_completed", "sequence_type::~sequence_type",
+       "trompeloeil_expect_death", "~lifetime_monitor", "deathwatched<T>::~deathwatched"] := by decide
+
+theorem run_actions_called_under_lock :
+    (Tromp.Gen.lockScopes.filter (fun fn => fn.1 == "mock_func")).all
+      (fun fn => fn.2.2.contains ("i->run_actions(param_value, e.saturated)", true)) = true ∧
+    (Tromp.Gen.lockScopes.filter (fun fn => fn.1 == "mock_func")).length = 1 := by decide
+
+/-- the mutating steps the properties turn on are all inside a lock scope, by name: -/
+theorem critical_steps_locked :
+    let has := fun (f s : String) => (Tromp.Gen.lockScopes.filter (fun fn => fn.1 == f)).any (fun fn => fn.2.2.contains (s, true))
+    has "decommission" "while (iter != e)" = true ∧ has "decommission" "m.unlink()" = true ∧
+    has "~call_matcher" "if (is_unfulfilled())" = true ∧ has "~call_matcher" "this->unlink()" = true ∧
+    has "~call_matcher" "sequences.reset()" = true ∧
+    has "~lifetime_monitor" "if (!died)" = true ∧ has "~lifetime_monitor" "sequences.reset()" = true ∧
+    has "deathwatched<T>::~deathwatched" "m->notify()" = true ∧
+    has "sequence_type::is_completed" "for (const auto& matcher : matchers)" = true ∧
+    has "sequence_type::~sequence_type" "m->detach()" = true ∧
+    has "action" "m.matcher->sequences->set_limits(L, H)" = true ∧
+    has "action" "m.matcher->sequences->set_limits(bounds.low, bounds.high)" = true ∧
+    has "make_expectation" "m.matcher->hook_last(obj.trompeloeil_matcher_list(static_cast<Tag*>(nullptr)))" = true ∧
+    has "sequence_matcher" "seq->add_last(this)" = true ∧
+    has "mock_func" "auto i = find(e.active, param_value)" = true := by decide
 
 /-! ### non-vacuity -/
 example : runL none [.acq 1, .acc 1 7 true, .rel 1, .acq 2, .acc 2 7 false, .rel 2] = some none := by decide
